@@ -122,6 +122,14 @@ check("C13", "model_checking",
       "Trusted: the reference BFS (hop added entirely or not at all) and relation extraction in checks/c13.py; `dot` is stubbed (DOT source is the observation). The graph:false node defect is a listed known finding.",
       "exhaustive enumeration of small relation graphs x limit settings against a reference graph construction", "DESIGN.md 5/C13")
 
+check("C12", "model_checking",
+      "Schedule exploration: the harness owns the two sources of run-to-run variation - the enumeration order of the source files and the iteration order of every set "
+      "created inside ford and toposort (a chooser-driven set class is injected into those modules' globals). For each multi-file base project and option set it runs "
+      "every permutation of the file order and every execution with <= d deviating set-iteration events (reverse / swap / rotate; d=1 quick, 2 thorough), plus stale-output "
+      "histories; every written file and every DOT source must be byte-identical to the default schedule. Real `python -m ford` runs under several PYTHONHASHSEED values validate the model.",
+      "Trusted: the set shim (mc/nd.py) models hash-order nondeterminism as permutations reachable by <= d reversals/swaps/rotations per run; set comprehensions exist only in find_all_files, which is wrapped; clock pinned; dot stubbed in-process.",
+      "systematic schedule exploration (deviation-bounded) over owned nondeterminism with a byte-equality oracle", "DESIGN.md 5/C12")
+
 ALL = [f"C{i:02d}" for i in range(1, 21)]
 PENDING_REASON = "check not built yet in this round (planned: see DESIGN.md section 5); will be claimed once its exhaustive check exists"
 
